@@ -23,6 +23,9 @@ type Sim struct {
 	// AfterOffer, when set, runs after every successful Offer (extra oracle of the monitor using the Sim);
 	// returning false makes Offer report failure.
 	AfterOffer func(b *refchain.Block) bool
+	// BeforeNodeDeliver, when set, runs immediately before the block is handed to the node (after the
+	// reference has processed it) - used to start a snapshot save right before a commit.
+	BeforeNodeDeliver func()
 }
 
 func NewSim(run *vlib.Run, r *vlib.Rand, p refchain.Params, dir string, o NodeOpts) *Sim {
@@ -43,6 +46,9 @@ func (s *Sim) Offer(b *refchain.Block, family string) (refchain.Result, DeliverR
 func (s *Sim) OfferRaw(b *refchain.Block, raw []byte, family string) (refchain.Result, DeliverResult, bool) {
 	s.deliveries++
 	rr := s.Ref.Deliver(b)
+	if s.BeforeNodeDeliver != nil {
+		s.BeforeNodeDeliver()
+	}
 	gr := s.N.Deliver(raw)
 	s.Log = append(s.Log, fmt.Sprintf("%d %s %s ref=%s/%s node=%s/%s", s.deliveries, family, b.Hash(), rr.Stage, rr.Reason, gr.Stage, gr.Err))
 	if len(s.Log) > 400 {
